@@ -185,7 +185,11 @@ def main(argv):
             'discharged': len([o for o in proof_obls if o.status == 'discharged']),
             'checker_cmd': 'verus <generated>.rs --output-json --time ; cargo kani -Z function-contracts -Z stubbing --harness <h> (generated crate under build/%s/)' % pid,
             'trusted_base': engine.TRUSTED_BASE,
-            'explanation': meta.get('explanation', ''),
+            'explanation': meta.get('explanation') or (
+                'Contract-based verification of functions re-extracted from /repo on this run: %d obligations are complete proofs '
+                '(Verus, or loop-free / full-domain Kani harnesses) and %d are bounded stand-ins (Kani harnesses over concrete message / '
+                'configuration shapes with symbolic contents; bound stated per sample); each sample lists its meaning, back end, '
+                'status and time. %s' % (len(proof_obls), len(bounded), meta.get('level_text', ''))),
             'bounded_checks': len(bounded),
             'bounded_passed': len([o for o in bounded if o.status == 'discharged']),
             'bounded_note': 'bounded stand-ins are listed with their bound and are never counted under obligations/discharged',
